@@ -158,6 +158,18 @@ macro_rules! dispatch_impl {
                 50 => Some(run_case::<Payload>(bytes)),
                 51 => Some(run_case::<UpdatePayload>(bytes)),
                 52 => Some(run_case::<BI>(bytes)),
+                // Chain/ChainSchemasAll.v: Payload with all 22 variants, AccountTransaction<Payload> over it, contract payloads and names
+                53 => Some(run_case::<Payload>(bytes)),
+                54 => Some(run_case::<AccountTransaction<Payload>>(bytes)),
+                55 | 63 => Some(run_case::<InitContractPayload>(bytes)),
+                56 | 64 => Some(run_case::<UpdateContractPayload>(bytes)),
+                57 => Some(run_case::<concordium_base::smart_contracts::OwnedContractName>(bytes)),
+                58 => Some(run_case::<concordium_base::smart_contracts::OwnedReceiveName>(bytes)),
+                59 => Some(run_case::<concordium_base::smart_contracts::OwnedParameter>(bytes)),
+                // Chain/ManualTie.v: terms regenerated from the hand-written impl bodies
+                60 => Some(run_case::<concordium_base::id::types::PreIdentityProof<concordium_base::id::constants::IpPairing, concordium_base::id::constants::ArCurve>>(bytes)),
+                61 => Some(run_case::<BakerAddKeysPayload>(bytes)),
+                62 => Some(run_case::<AddBakerPayload>(bytes)),
                 _ => dispatch_gen(id, bytes),
             }
         }
@@ -476,6 +488,37 @@ impl<'a> G<'a> {
         AccountTransactionV1 { signatures: self.sigs_v1(), header: self.header_v1(u32::from(raw.size())), payload: raw }
     }
 
+    fn name_chars(&mut self, n: usize, dot: bool) -> String {
+        // ASCII alphanumeric / punctuation (33..=126), with or without '.'
+        (0..n).map(|_| loop { let c = (33 + self.r.below(94) as u8) as char; if dot || c != '.' { break c; } }).collect()
+    }
+    fn contract_name(&mut self) -> Vec<u8> {
+        let n = *self.r.pick(&[0usize, 1, 5, 94, 95]);
+        let s = format!("init_{}", self.name_chars(n, false));
+        let v = concordium_base::smart_contracts::OwnedContractName::new(s).expect("valid contract name");
+        to_bytes(&v)
+    }
+    fn receive_name(&mut self) -> Vec<u8> {
+        let n = *self.r.pick(&[0usize, 1, 5, 49]);
+        let m = *self.r.pick(&[0usize, 1, 5, 50]);
+        let s = format!("{}.{}", self.name_chars(n, true), self.name_chars(m, true));
+        let v = concordium_base::smart_contracts::OwnedReceiveName::new(s).expect("valid receive name");
+        to_bytes(&v)
+    }
+    fn parameter(&mut self) -> Vec<u8> {
+        let l = *self.r.pick(&[0usize, 1, 40, 1000, 65535]);
+        let mut b = (l as u16).to_be_bytes().to_vec(); b.extend(self.r.bytes(l)); b
+    }
+    fn init_contract(&mut self) -> Vec<u8> {
+        let mut b = to_bytes(&self.amount()); b.extend(self.r.bytes(32)); b.extend(self.contract_name()); b.extend(self.parameter());
+        let v: InitContractPayload = de(&b); to_bytes(&v)
+    }
+    fn update_contract(&mut self) -> Vec<u8> {
+        let mut b = to_bytes(&self.amount()); b.extend(to_bytes(&ContractAddress::new(self.r.u64_edge(), self.r.u64_edge())));
+        b.extend(self.receive_name()); b.extend(self.parameter());
+        let v: UpdateContractPayload = de(&b); to_bytes(&v)
+    }
+
     /// One implementation-generated encoding for schema `id` (None: no generator for this id).
     fn gen(&mut self, id: u32) -> Option<Vec<u8>> {
         Some(match id {
@@ -533,6 +576,23 @@ impl<'a> G<'a> {
             47 => { let w = self.r.next(); to_bytes(&self.root_update(w)) }
             48 => { let w = self.r.next(); to_bytes(&self.level1_update(w)) }
             49 => to_bytes(&self.ar_info()),
+            53 => match self.r.below(3) { 0 => { let mut b = vec![1u8]; b.extend(self.init_contract()); b }
+                                         1 => { let mut b = vec![2u8]; b.extend(self.update_contract()); b }
+                                         _ => to_bytes(&self.payload()) },
+            54 => { let p: Payload = match self.r.below(3) {
+                        0 => { let mut b = vec![1u8]; b.extend(self.init_contract()); de(&b) }
+                        1 => { let mut b = vec![2u8]; b.extend(self.update_contract()); de(&b) }
+                        _ => self.payload() };
+                    let size = p.encode().size();
+                    to_bytes(&AccountTransaction { signature: self.tx_sig(), header: self.header(u32::from(size)), payload: p }) }
+            55 | 63 => self.init_contract(),
+            56 | 64 => self.update_contract(),
+            57 => self.contract_name(),
+            58 => self.receive_name(),
+            59 => self.parameter(),
+            61 => to_bytes(&self.pool.bakers[self.r.below(4) as usize].0),
+            62 => { let keys = self.pool.bakers[self.r.below(4) as usize].0.clone();
+                    to_bytes(&AddBakerPayload { keys, baking_stake: self.amount(), restake_earnings: self.r.chance(1, 2) }) }
             _ => return None,
         })
     }
@@ -587,7 +647,7 @@ fn fuzz(seed: u64, n: u64) {
     let mut keys: Vec<String> = named_types().iter().map(|s| s.to_string()).collect();
     for id in 1..=MAX_ID { keys.push(id.to_string()); }
     for (id, _) in gen_ids() { keys.push(id.to_string()); }
-    for id in 50..=52u32 { keys.push(id.to_string()); }
+    for id in 50..=64u32 { keys.push(id.to_string()); }
     let pool = make_pool(seed);
     let mut g = G { r: Rng::new(seed ^ 0x77), pool: &pool };
     for (ti, key) in keys.iter().enumerate() {
@@ -623,7 +683,7 @@ fn fuzz(seed: u64, n: u64) {
 // check), and the `*_ALL` lists make a variant that is no longer constructed a reported gap.
 use concordium_base::id::{constants::{ArCurve, AttributeKind, IpPairing}, types as idt};
 
-struct Heavy { ip_info: IpInfoT, ars: Vec<ArInfoT>, icdi: idt::InitialCredentialDeploymentInfo<ArCurve, AttributeKind>, cdi: CredInfo,
+struct Heavy { ipdata_bytes: Vec<u8>, pio_bytes: Vec<u8>, poks_bytes: Vec<u8>, ip_info: IpInfoT, ars: Vec<ArInfoT>, icdi: idt::InitialCredentialDeploymentInfo<ArCurve, AttributeKind>, cdi: CredInfo,
                enc: EncAmountTransfer, s2p: SecToPub, global: GlobalCtx }
 
 fn make_heavy(seed: u64) -> Heavy {
@@ -631,7 +691,9 @@ fn make_heavy(seed: u64) -> Heavy {
     use concordium_base::{elgamal, encrypted_transfers as et};
     let mut csprng = StdRng::seed_from_u64(seed ^ 0x4ea5);
     let num_ars = 3u8;
-    let idt::IpData { public_ip_info: ip_info, ip_secret_key, ip_cdi_secret_key } = test_create_ip_info(&mut csprng, num_ars, 10);
+    let ipd = test_create_ip_info(&mut csprng, num_ars, 10);
+    let ipdata_bytes = to_bytes(&ipd);
+    let idt::IpData { public_ip_info: ip_info, ip_secret_key, ip_cdi_secret_key } = ipd;
     let global = idt::GlobalContext::<ArCurve>::generate(String::from("verif-c05"));
     let (ars_infos, _) = test_create_ars(&global.on_chain_commitment_key.g, num_ars, &mut csprng);
     let id_use_data = test_create_id_use_data(&mut csprng);
@@ -640,6 +702,8 @@ fn make_heavy(seed: u64) -> Heavy {
     keys.insert(KeyIndex(7), KeyPair::generate(&mut csprng));
     let acc = idt::InitialAccountData { keys, threshold: idt::SignatureThreshold::TWO };
     let (context, pio, _) = test_create_pio(&id_use_data, &ip_info, &ars_infos, &global, num_ars, &acc);
+    let pio_bytes = to_bytes(&pio);
+    let poks_bytes = to_bytes(&pio.poks);
     let alist = test_create_attributes();
     let (sig, icdi) = verify_credentials(&pio, context, &alist, EXPIRY, &ip_secret_key, &ip_cdi_secret_key).expect("issue");
     let ido = idt::IdentityObject { pre_identity_object: pio, alist, signature: sig };
@@ -662,7 +726,7 @@ fn make_heavy(seed: u64) -> Heavy {
         agg_amount: Amount::from_micro_ccd(bal), agg_index: 3u64.into() };
     let enc = et::make_transfer_data(&global, &pk2, &sk, &input, Amount::from_micro_ccd(777), &mut csprng).expect("transfer data");
     let s2p = et::make_sec_to_pub_transfer_data(&global, &sk, &input, Amount::from_micro_ccd(bal), &mut csprng).expect("sec to pub");
-    Heavy { ip_info, ars: ars_infos.into_values().collect(), icdi, cdi, enc, s2p, global }
+    Heavy { ipdata_bytes, pio_bytes, poks_bytes, ip_info, ars: ars_infos.into_values().collect(), icdi, cdi, enc, s2p, global }
 }
 
 fn de<T: Deserial>(b: &[u8]) -> T { concordium_base::common::from_bytes(&mut std::io::Cursor::new(b)).expect("fixture bytes decode") }
@@ -792,32 +856,32 @@ fn variants(seed: u64, reps: u64) {
     let pl = |p: &Payload| payload_variant(p).to_string();
     for rep in 0..reps {
         // ---- Payload: the variants with generators in G (sizes vary per repetition) ...
-        for _ in 0..14 { emit!("Payload", Some(50), g.payload(), pl); }
+        for _ in 0..14 { emit!("Payload", Some(53), g.payload(), pl); }
         for want in ["Transfer", "AddBaker", "RemoveBaker", "UpdateBakerStake", "UpdateBakerRestakeEarnings", "UpdateBakerKeys", "UpdateCredentialKeys",
                      "TransferToEncrypted", "TransferWithSchedule", "RegisterData", "TransferWithMemo", "TransferWithScheduleAndMemo", "ConfigureBaker", "ConfigureDelegation"] {
-            if rep == 0 { loop { let p = g.payload(); if payload_variant(&p) == want { emit!("Payload", Some(50), p, pl); break; } } }
+            if rep == 0 { loop { let p = g.payload(); if payload_variant(&p) == want { emit!("Payload", Some(53), p, pl); break; } } }
         }
         // ... and the others
         let src_len = *g.r.pick(&[0usize, 1, 8, 300]);
         let mut wasm = vec![0, 0, 0, (rep % 2) as u8]; wasm.extend((src_len as u32).to_be_bytes()); wasm.extend(g.r.bytes(src_len));
-        emit!("Payload", Some(50), Payload::DeployModule { module: de(&wasm) }, pl);
+        emit!("Payload", Some(53), Payload::DeployModule { module: de(&wasm) }, pl);
         let name = format!("init_{}", "c".repeat(*g.r.pick(&[1usize, 5, 95])));
         let param = { let l = *g.r.pick(&[0usize, 1, 40, 65535]); let mut b = (l as u16).to_be_bytes().to_vec(); b.extend(g.r.bytes(l)); b };
-        emit!("Payload", Some(50), Payload::InitContract { payload: InitContractPayload { amount: g.amount(), mod_ref: de(&g.r.bytes(32)),
+        emit!("Payload", Some(53), Payload::InitContract { payload: InitContractPayload { amount: g.amount(), mod_ref: de(&g.r.bytes(32)),
             init_name: concordium_base::smart_contracts::OwnedContractName::new_unchecked(name.clone()), param: de(&param) } }, pl);
         let rname = format!("{}.{}", &name[5..], "f".repeat(*g.r.pick(&[1usize, 3])));
-        emit!("Payload", Some(50), Payload::Update { payload: UpdateContractPayload { amount: g.amount(), address: ContractAddress::new(g.r.u64_edge(), g.r.u64_edge()),
+        emit!("Payload", Some(53), Payload::Update { payload: UpdateContractPayload { amount: g.amount(), address: ContractAddress::new(g.r.u64_edge(), g.r.u64_edge()),
             receive_name: concordium_base::smart_contracts::OwnedReceiveName::new_unchecked(rname), message: de(&param) } }, pl);
-        emit!("Payload", Some(50), Payload::EncryptedAmountTransfer { to: g.addr(), data: Box::new(heavy.enc.clone()) }, pl);
-        emit!("Payload", Some(50), Payload::EncryptedAmountTransferWithMemo { to: g.addr(), memo: g.memo(), data: Box::new(heavy.enc.clone()) }, pl);
-        emit!("Payload", Some(50), Payload::TransferToPublic { data: Box::new(heavy.s2p.clone()) }, pl);
+        emit!("Payload", Some(53), Payload::EncryptedAmountTransfer { to: g.addr(), data: Box::new(heavy.enc.clone()) }, pl);
+        emit!("Payload", Some(53), Payload::EncryptedAmountTransferWithMemo { to: g.addr(), memo: g.memo(), data: Box::new(heavy.enc.clone()) }, pl);
+        emit!("Payload", Some(53), Payload::TransferToPublic { data: Box::new(heavy.s2p.clone()) }, pl);
         let mut creds = BTreeMap::new();
         if rep % 2 == 0 { creds.insert(CredentialIndex { index: g.r.below(256) as u8 }, heavy.cdi.clone()); }
         let remove: Vec<CredentialRegistrationID> = (0..(rep % 3)).map(|i| de(&pool.cred_id[i as usize])).collect();
-        emit!("Payload", Some(50), Payload::UpdateCredentials { new_cred_infos: creds, remove_cred_ids: remove, new_threshold: (1 + g.r.below(255) as u8).try_into().unwrap() }, pl);
+        emit!("Payload", Some(53), Payload::UpdateCredentials { new_cred_infos: creds, remove_cred_ids: remove, new_threshold: (1 + g.r.below(255) as u8).try_into().unwrap() }, pl);
         let tok = { let id = *g.r.pick(&["T", "TOKEN", "a-b.c%d"]); let mut b = vec![id.len() as u8]; b.extend(id.as_bytes()); b };
         let cbor = { let l = *g.r.pick(&[0usize, 1, 50, 5000]); let mut b = (l as u32).to_be_bytes().to_vec(); b.extend(g.r.bytes(l)); b };
-        emit!("Payload", Some(50), Payload::TokenUpdate { payload: concordium_base::protocol_level_tokens::TokenOperationsPayload { token_id: de(&tok), operations: de(&cbor) } }, pl);
+        emit!("Payload", Some(53), Payload::TokenUpdate { payload: concordium_base::protocol_level_tokens::TokenOperationsPayload { token_id: de(&tok), operations: de(&cbor) } }, pl);
 
         // ---- UpdatePayload
         let ul = |u: &UpdatePayload| update_variant(u);
@@ -911,6 +975,20 @@ fn variants(seed: u64, reps: u64) {
         fx("EncryptedAmount_ArCurve", to_bytes(&heavy.enc.remaining_amount));
         fx("SecToPubAmountTransferData_ArCurve", to_bytes(&heavy.s2p));
         fx("SecToPubAmountTransferProof_ArCurve", to_bytes(&heavy.s2p.proof));
+        // types translated since the extension of T4 (secret-key carriers, PreIdentityObject, wrappers)
+        fx("IpData_IpPairing", heavy.ipdata_bytes.clone());
+        fx("PreIdentityObject_IpPairing_ArCurve", heavy.pio_bytes.clone());
+        fx("#60", heavy.poks_bytes.clone());
+        {
+            let mut rng = StdRng::seed_from_u64(seed ^ 0xbaca);
+            for _ in 0..3 {
+                let kp = BakerKeyPairs::generate(&mut rng);
+                fx("BakerSignatureSignKey", to_bytes(&kp.signature_sign));
+                fx("BakerElectionSignKey", to_bytes(&kp.election_sign));
+                fx("BakerKeyPairs", to_bytes(&kp));
+                fx("Keypair", to_bytes(&concordium_base::ecvrf::Keypair::generate(&mut rng)));
+            }
+        }
     }
     // coverage: every variant of every enum must have been constructed
     let mut cov = serde_json::Map::new();
@@ -950,7 +1028,7 @@ fn main() {
         "gen" => {
             let p = make_pool(seed);
             let mut g = G { r: Rng::new(seed ^ 0xabcdef), pool: &p };
-            for id in 1..=MAX_ID {
+            for id in (1..=MAX_ID).chain(53..=64) {
                 for _ in 0..n {
                     match guarded(|| g.gen(id)) {
                         Ok(Some(b)) => println!("{} {}", id, hex(&b)),
